@@ -69,7 +69,7 @@ CATALOGUE = {
  'C02': [
   (DEC, "    elif len(data) != spec['length'] - 1:", "    elif len(data) < spec['length'] - 1:", C),
   (MSGS, "return cl.from_bytes(bytearray.fromhex(text), time=time)", "return cl(**decode_message(bytearray.fromhex(text), time=time, check=False))", C),
-  (MSGS, "        text = re.sub(r'\\s', ' ', text)\n", "        text = text.replace(' ', '')\n", S),   # fromhex skips all ASCII whitespace (3.7+); digits stay paired
+  (MSGS, "        text = re.sub(r'\\s', ' ', text)\n", "        text = text.replace(' ', '')\n", C),   # NOT equivalent: with a separator (turned into spaces just before) 'F-8' becomes 'F8' and is accepted
   (DEC, "    if check:\n        check_data(data)", "    if check and status_byte != 0xf1:\n        check_data(data)", C),
   (DEC, "        if end != SYSEX_END:", "        if end != SYSEX_END and end < 128:", C),
   (DEC, "    except KeyError as ke:", "    except IndexError as ke:", C),
